@@ -134,8 +134,9 @@ def _run_path(eng, fi, c, case, rep, suffix):
             if rd.get('always'):
                 eng.oblige(f'raises-always:{exc}:normal-exit', z3.BoolVal(False), kind='raises',
                            props=rd.get('props') or c.props)
-            if rd.get('when') is not None and rd.get('iff', True):
-                terms = [t for _, t in eng.spec_terms(rd['when'], env2)]
+            mustp = rd.get('must') or rd.get('when')
+            if mustp is not None and rd.get('iff', True):
+                terms = [t for _, t in eng.spec_terms(mustp, env2)]
                 eng.oblige(f'raises-iff:{exc}:normal-exit', z3.Not(z3.And(terms)), kind='raises',
                            props=rd.get('props') or c.props)
         for tag, preds in c.ensures.items():
